@@ -63,6 +63,12 @@ def input_requires(a):
     return out
 
 
+# class of the filter-stage clauses: WHICH rows enter the matching problem is a choice of the implementation - the property only fixes
+# the value (and the warning).  A change that drops, say, zero-persistence points as well keeps every distance; so a refuted clause of
+# this stage is reported only with a failing input found by the replay search (DESIGN 10.3), otherwise the proof is undecided.
+FC = "S"
+
+
 def make_cut_filter():
     # -- filter stage (cut A) ---------------------------------------------------------------
     def cut_filter(st):
@@ -73,13 +79,13 @@ def make_cut_filter():
             spec = arg[NP.isfinite(arg[:, 1]), :]      # D6 (canonical per mask)
             ns = spec.shape[0]
             any_fin = lift(ns) >= 1
-            out.append(("%s_count" % var, lift(c) == ite(any_fin, ns, 1), "P"))
-            out.append(("%s_shape" % var, b_and(lift(X.shape[0]) == c, X.shape[1] == 2), "P"))
+            out.append(("%s_count" % var, lift(c) == ite(any_fin, ns, 1), FC))
+            out.append(("%s_shape" % var, b_and(lift(X.shape[0]) == c, X.shape[1] == 2), FC))
             k = e.fresh_int("kf_" + var, lo=0, hi=c)
             for col in (0, 1):
                 want = ite(any_fin, e.under(zb(any_fin), lambda: spec.get(k, col)), 0.0)
-                out.append(("%s_rows_are_finite_death_rows_col%d" % (var, col), lift(X.get(k, col)) == want, "P"))
-                out.append(("%s_entries_finite_col%d" % (var, col), lift(X.get(k, col)).finite(), "P"))
+                out.append(("%s_rows_are_finite_death_rows_col%d" % (var, col), lift(X.get(k, col)) == want, FC))
+                out.append(("%s_entries_finite_col%d" % (var, col), lift(X.get(k, col)).finite(), FC))
             dropped = b_and(lift(arg.shape[0]) > 0, lift(ns) < arg.shape[0])
             warned = any(nm in w for w in e.warnings)
             out.append(("warning_iff_infinite_rows_dropped_%s" % nm, dropped if warned else b_not(dropped), "P"))
